@@ -112,9 +112,9 @@ type verifMethod struct {
 	entered  *int
 }
 
-func (m verifMethod) GetMethodId() []byte  { return m.id }
-func (m verifMethod) IsReadonly() bool     { return m.readonly }
-func (m verifMethod) RequiredGas() uint64  { return 1 }
+func (m verifMethod) GetMethodId() []byte { return m.id }
+func (m verifMethod) IsReadonly() bool    { return m.readonly }
+func (m verifMethod) RequiredGas() uint64 { return 1 }
 func (m verifMethod) Run(evm *vm.EVM, c *vm.Contract) ([]byte, error) {
 	*m.entered++
 	return []byte{1}, nil
